@@ -1044,3 +1044,7 @@ for _c, _nm in ((4, "fetch_group_only"), (5, "set_group_only")):
     O(id="C08.visibility_" + _nm, props=["C08"], entry="harness_visibility", defines=["VISCASE=%d" % _c],
       functions=_AF + ["add_fetch_to_state_and_notify", "set_or_call", "fill_access", "get_elements"], symbolic="state value", assumes=["set-up requests succeed"],
       bounds="state 's' with fetchGroups/setGroups [g1]; peer P1 is a member of the %s" % _nm.replace("_", " "), **_scn_auth)
+
+for _b, _nm in ((1, "notification_request_failure"), (2, "single_member"), (3, "failure_first")):
+    O(id="C02.batch_" + _nm, props=["C02", "C04"], entry="harness_batch_shapes", defines=["BATCHCASE=%d" % _b], functions=["parse_message", "parse_json_array", "parse_json_rpc", "change_state"],
+      symbolic="two state values", assumes=["the set-up add succeeds"], bounds="one batch (%s) after A added 'a'" % _nm.replace("_", " "), **_scn_rpc)
